@@ -62,6 +62,38 @@ def build():
                    "(cwd / 'calendar.py').exists()", "(cwd / 'calendar').is_dir()"):
         if needle not in cl:
             raise TieBroken(f"classify: expected fragment not found: {needle}")
+    # ---- repairs 7bd370f / 6fb4634 / 1872043
+    out.append(coq_strs("PY_IMPORTABLE_ENDINGS", const_strs(module_assign(py, "_IMPORTABLE_ENDINGS"), "_IMPORTABLE_ENDINGS"),
+                        "cli/python.py _IMPORTABLE_ENDINGS"))
+    # local_shadow consults sys.stdlib_module_names of the interpreter the hook runs under: the table is that of
+    # the interpreter running this translator (/venv/bin/python, the one the harness imports dippy with)
+    import sys
+    names = getattr(sys, "stdlib_module_names", None)
+    if names is None:
+        raise TieBroken("sys.stdlib_module_names is missing (Python < 3.10): the model has no table for local_shadow's fallback")
+    safe_roots = sorted({m.split(".")[0] for m in const_strs(module_assign(py, "SAFE_MODULES"), "SAFE_MODULES")})
+    bad = [n for n in list(names) + safe_roots if not n.isidentifier() or "." in n]
+    if bad:
+        raise TieBroken(f"local_shadow: the model drops the isidentifier() test because every listed name passes it; these do not: {bad[:5]}")
+    out.append(coq_strs("PY_STDLIB_MODULE_NAMES", sorted(names), "sys.stdlib_module_names of the analysing interpreter"))
+    ls = ast.unparse(func(py, "local_shadow"))
+    for needle in ("getattr(sys, 'stdlib_module_names', None)", "{m.split('.')[0] for m in SAFE_MODULES}", "sorted(base.iterdir())",
+                   "entry.name.split('.')[0]", "name.isidentifier()", "known is not None and name not in known and (name not in safe_roots)",
+                   "entry.name.endswith(_IMPORTABLE_ENDINGS) or ('.' not in entry.name and entry.is_dir())", "except OSError"):
+        if needle not in ls:
+            raise TieBroken(f"local_shadow: expected fragment not found: {needle}")
+    wx = ast.unparse(func(py, "_writes_files_xoption"))
+    for needle in ("enumerate(tokens[1:end], start=1)", "token.startswith('-') and (not token.startswith('--')) and ('X' in token)",
+                   "token.split('X', 1)[1] or (tokens[i + 1] if i + 1 < len(tokens) else '')", "value.startswith(('pycache_prefix', 'perf'))"):
+        if needle not in wx:
+            raise TieBroken(f"_writes_files_xoption: expected fragment not found: {needle}")
+    for needle in ("'-X' in seen and _writes_files_xoption(tokens, idx)", "tokens[idx].startswith('~') or any((c in tokens[idx] for c in '$`{*?['))",
+                   "local_shadow(cwd) is None"):
+        if needle not in cl:
+            raise TieBroken(f"classify: expected fragment not found: {needle}")
+    src = ast.unparse(func(py, "analyze_python_source"))
+    if "shadow = local_shadow(base)" not in src or "if shadow is not None" not in src:
+        raise TieBroken("analyze_python_source: the local_shadow(base) test is gone")
     # method names of the visitor: the model dispatches on exactly these kinds
     visits = sorted(m.name[6:] for m in cls[0].body if isinstance(m, ast.FunctionDef) and m.name.startswith("visit_"))
     out.append(coq_strs("PY_VISIT_METHODS", visits, "SafetyAnalyzer: node classes with a visit_ method"))
